@@ -703,11 +703,12 @@ func (x *Explorer) enterBlock(st *State, b *ssa.BasicBlock) bool {
 			}
 			st.trackIter = true
 			st.iter = EffSet{}
-		} else if st.trackIter && x.LoopBlocks != nil && !x.LoopBlocks[b] {
-			// left the loop without returning
+		} else if st.trackIter && x.LoopBlocks != nil && !x.LoopBlocks[b] && fr.prev == x.LoopHeader {
+			// normal termination of the loop (left through the header)
 			x.L.End(x, st, "loopexit")
 			return false
 		}
+		// leaving from a body block (break / early return) keeps the iteration open: the path is followed to its return
 	}
 	// phis (simultaneous assignment)
 	type bind struct {
